@@ -80,6 +80,18 @@ def generate(repo, c):
       res.status = 'engine-error'
       res.detail = 'recursion limit'
       break
+    except Exception as e:
+      tb = traceback.extract_tb(e.__traceback__)
+      in_contract = [f for f in tb if '/contracts/' in f.filename]
+      if in_contract and isinstance(e, (AttributeError, KeyError, IndexError, TypeError)):
+        # a clause could not even be evaluated on this code: the contract no
+        # longer fits (e.g. a loop was added/removed, a local changed its type)
+        res.status = 'out-of-subset'
+        res.detail = (f'contract does not fit the code any more: {type(e).__name__}: {e} '
+                      f'at {in_contract[-1].filename.split("/")[-1]}:{in_contract[-1].lineno}')
+        res.obligations = []
+        break
+      raise
     res.paths += 1
     for alt in path.new_alternatives:
       work.append(alt)
